@@ -24,34 +24,34 @@ Proof. reflexivity. Qed.
 (* the jrpc2 handler map of CreateServer: LSP method -> Go method, LSP kind *)
 Lemma tie_handler_map :
   map (fun h => (hname h, hfunc h, hkind h)) handlers =
-  [ ("initialize", "Initialize", Request);
-    ("initialized", "Initialized", Notification);
-    ("textDocument/didChange", "TextDocumentDidChange", Notification);
-    ("textDocument/didSave", "TextDocumentDidSave", Notification);
-    ("textDocument/didOpen", "TextDocumentDidOpen", Notification);
-    ("textDocument/didClose", "TextDocumentDidClose", Notification);
-    ("textDocument/definition", "TextDocumentDefine", Request);
-    ("textDocument/hover", "TextDocumentHover", Request);
-    ("textDocument/references", "TextDocumentReferences", Request);
-    ("textDocument/documentSymbol", "TextDocumentSymbol", Request);
-    ("textDocument/rename", "TextDocumentRename", Request);
-    ("textDocument/documentHighlight", "TextDocumentHighlight", Request);
-    ("textDocument/signatureHelp", "TextDocumentSignatureHelp", Request);
-    ("textDocument/documentColor", "TextDocumentColor", Request);
-    ("textDocument/codeLens", "TextDocumentCodeLens", Request);
-    ("textDocument/documentLink", "TextDocumentdocumentLink", Request);
-    ("textDocument/completion", "TextDocumentComplete", Request);
-    ("completionItem/resolve", "TextDocumentCompleteResolve", Request);
-    ("workspace/didChangeConfiguration", "ChangeConfiguration", Notification);
-    ("workspace/didChangeWorkspaceFolders", "WorkspaceChangeWorkspaceFolders", Notification);
-    ("workspace/didChangeWatchedFiles", "WorkspaceChangeWatchedFiles", Notification);
-    ("workspace/symbol", "WorkspaceSymbolRequest", Request);
-    ("luahelper/getVarColor", "TextDocumentGetVarColor", Request);
-    ("luahelper/getOnlineReq", "GetOnlineReq", Request);
-    ("$/cancelRequest", "CancelRequest", Notification);
-    ("shutdown", "Shutdown", Request);
-    ("exit", "Exit", Notification) ].
+  [ (nm "initialize", nm "Initialize", Request);
+    (nm "initialized", nm "Initialized", Notification);
+    (nm "textDocument/didChange", nm "TextDocumentDidChange", Notification);
+    (nm "textDocument/didSave", nm "TextDocumentDidSave", Notification);
+    (nm "textDocument/didOpen", nm "TextDocumentDidOpen", Notification);
+    (nm "textDocument/didClose", nm "TextDocumentDidClose", Notification);
+    (nm "textDocument/definition", nm "TextDocumentDefine", Request);
+    (nm "textDocument/hover", nm "TextDocumentHover", Request);
+    (nm "textDocument/references", nm "TextDocumentReferences", Request);
+    (nm "textDocument/documentSymbol", nm "TextDocumentSymbol", Request);
+    (nm "textDocument/rename", nm "TextDocumentRename", Request);
+    (nm "textDocument/documentHighlight", nm "TextDocumentHighlight", Request);
+    (nm "textDocument/signatureHelp", nm "TextDocumentSignatureHelp", Request);
+    (nm "textDocument/documentColor", nm "TextDocumentColor", Request);
+    (nm "textDocument/codeLens", nm "TextDocumentCodeLens", Request);
+    (nm "textDocument/documentLink", nm "TextDocumentdocumentLink", Request);
+    (nm "textDocument/completion", nm "TextDocumentComplete", Request);
+    (nm "completionItem/resolve", nm "TextDocumentCompleteResolve", Request);
+    (nm "workspace/didChangeConfiguration", nm "ChangeConfiguration", Notification);
+    (nm "workspace/didChangeWorkspaceFolders", nm "WorkspaceChangeWorkspaceFolders", Notification);
+    (nm "workspace/didChangeWatchedFiles", nm "WorkspaceChangeWatchedFiles", Notification);
+    (nm "workspace/symbol", nm "WorkspaceSymbolRequest", Request);
+    (nm "luahelper/getVarColor", nm "TextDocumentGetVarColor", Request);
+    (nm "luahelper/getOnlineReq", nm "GetOnlineReq", Request);
+    (nm "$/cancelRequest", nm "CancelRequest", Notification);
+    (nm "shutdown", nm "Shutdown", Request);
+    (nm "exit", nm "Exit", Notification) ].
 Proof. vm_compute. reflexivity. Qed.
 
-Lemma tie_background_names : map hfunc background = ["handleRecv"; "UDPReportOnline"].
+Lemma tie_background_names : map hfunc background = map nm ["handleRecv"; "UDPReportOnline"].
 Proof. vm_compute. reflexivity. Qed.
